@@ -112,6 +112,43 @@ func (c *Ctx) bcd2decRule() {
 					}
 				}
 			}
+			if !ok {
+				// idiom 2: a manual scan - the cut point is the index of an ascending loop over the same digit array, and the
+				// cut is reached only over the edge on which the digit at that index differs from '0' (all earlier iterations
+				// went round the loop over the other edge, i.e. saw '0')
+				if over, asc := ascendingIndexOver(sl.Low); asc && varIdent(over) == varIdent(sl.X) {
+					for _, b2 := range fn.Blocks {
+						iff, isIf := b2.Instrs[len(b2.Instrs)-1].(*ssa.If)
+						if !isIf {
+							continue
+						}
+						cmp, isCmp := iff.Cond.(*ssa.BinOp)
+						if !isCmp || (cmp.Op != token.NEQ && cmp.Op != token.EQL) {
+							continue
+						}
+						x, y := cmp.X, cmp.Y
+						if _, isK := x.(*ssa.Const); isK {
+							x, y = y, x
+						}
+						k, isK := constInt(y)
+						ld, isLd := x.(*ssa.UnOp)
+						if !isK || k != '0' || !isLd {
+							continue
+						}
+						ia, isIA := ld.X.(*ssa.IndexAddr)
+						if !isIA || ia.Index != sl.Low || varIdent(ia.X) != varIdent(sl.X) {
+							continue
+						}
+						edge := 0
+						if cmp.Op == token.EQL {
+							edge = 1
+						}
+						if edgeDominates(b2, edge, sl.Block()) {
+							ok, d = true, ""
+						}
+					}
+				}
+			}
 			st := report.Discharged
 			if !ok {
 				st = report.Violated
